@@ -29,6 +29,7 @@ CHECKS = {
  "C08": ("model_checking", "3 (C08)", "Private wrapper IR N<=3/4: conservation of value asked directly of the circuit's outputs (not of the spec transcription)."),
  "C09": ("model_checking", "3 (C09)", "Circuit output = O(x) re-proved on the IR (N<=2 quick / N<=3 thorough), two-witness dummy-content independence on the IR, and all N! slot permutations of O checked on the spec for N<=3; one recorded known finding."),
  "C10": ("model_checking", "3 (C10)", "Self-composition (two witness copies over shared inputs) on private wrapper, public wrapper, sort, less-than and digest-equality gadgets: outputs cannot differ."),
+ "C11": ("model_checking", "3 (C11)", "Structural half of C11 on the full recursive circuits built by the real constructors: no witness can put a key other than the canonical child's verifier key on the wires verify_proof reads (all 68 are pinned by constant slots); that a pinned key rejects foreign proofs is plonky2's recursive-verifier soundness (assumed)."),
  "C12": ("model_checking", "3 (C12/C13)", "Public wrapper IR for (M,N) up to (3,2) quick / (4,4) thorough: every output position equals the order-preserving forwarding spec."),
  "C13": ("model_checking", "3 (C12/C13)", "Public wrapper IR: satisfiable iff real inners agree on block hash, asset and fee (both directions); vacuity witnesses show dummies and other fields are unconstrained."),
  "C36": ("model_checking", "3 (C36)", "M private-wrapper IR copies chained into the public-wrapper IR in one solver context: end-to-end value conservation and nullifier-set statements for (M,N) in {(1,2),(2,1),(2,2)} (+(3,2),(2,3) thorough)."),
